@@ -8,18 +8,48 @@ from z3 import z3core as _C
 _ctx = z3.main_ctx(); _cr = _ctx.ref(); _A2 = z3.Ast * 2
 _BS = _C.Z3_mk_bool_sort(_cr)
 def _B(ast): return z3.BoolRef(ast, _ctx)
+_NOT = z3.Z3_OP_NOT
+def _aid(a): return _C.Z3_get_ast_id(_cr, a.ast)
+def _complementary(a, b):
+    """syntactic check a == Not(b) or b == Not(a) (z3 ASTs are hash-consed)"""
+    ia, ib = _aid(a), _aid(b)
+    if ia == ib: return None
+    for x, iy in ((a, ib), (b, ia)):
+        if _C.Z3_get_app_num_args(_cr, x.ast) == 1 and _C.Z3_get_decl_kind(_cr, _C.Z3_get_app_decl(_cr, x.ast)) == _NOT:
+            if _C.Z3_get_ast_id(_cr, _C.Z3_get_app_arg(_cr, x.ast, 0)) == iy: return True
+    return False
 def gand(a, b):
     if a is True: return b
     if b is True: return a
     if a is False or b is False: return False
     if a is b: return a
+    c = _complementary(a, b)
+    if c is None: return a
+    if c: return False
     return _B(_C.Z3_mk_and(_cr, 2, _A2(a.ast, b.ast)))
 def gor(a, b):
     if a is False: return b
     if b is False: return a
     if a is True or b is True: return True
     if a is b: return a
+    c = _complementary(a, b)
+    if c is None: return a
+    if c: return True
     return _B(_C.Z3_mk_or(_cr, 2, _A2(a.ast, b.ast)))
+SIB = {}     # ast id of a branch guard -> (ast id of its sibling, parent guard)
+def split(g, c):
+    """guards of the two arms of a branch on c under path guard g; remembers them as siblings"""
+    g1, g2 = name(gand(g, c)), name(gand(g, gnot(c)))
+    if not isinstance(g1, bool) and not isinstance(g2, bool):
+        i1, i2 = _aid(g1), _aid(g2)
+        SIB[i1] = (i2, g, g2); SIB[i2] = (i1, g, g1)
+    return g1, g2
+def merge(a, b):
+    """disjunction of two path guards; two arms of the same branch collapse to their parent"""
+    if isinstance(a, bool) or isinstance(b, bool): return gor(a, b)
+    sa = SIB.get(_aid(a))
+    if sa is not None and sa[0] == _aid(b): return sa[1]
+    return name(gor(a, b))
 def gnot(a):
     if a is True: return False
     if a is False: return True
